@@ -402,7 +402,7 @@ int main(int argc, char** argv) {
   const char* outdir = ".";
   const char* replay = 0;
   const char* name = "harness";
-  int verbose = 0, pmin = 0, discover = 0, envall = 0;
+  int verbose = 0, pmin = 0, discover = 0, envall = 0, atomicfilter = 0, precise = 0;
   for (int i = 1; i < argc; i++) {
     char* a = argv[i];
     if (!strncmp(a, "-P", 2)) P = atoi(a + 2);
@@ -425,6 +425,9 @@ int main(int argc, char** argv) {
     else if (!strcmp(a, "-nofilter")) fmc_use_site_filter = 0;
     else if (!strcmp(a, "-discover")) discover = 1;
     else if (!strcmp(a, "-envall")) envall = 1;
+    else if (!strcmp(a, "-atomicfilter")) atomicfilter = 1;
+    else if (!strcmp(a, "-precise")) precise = 1;
+    else if (!strcmp(a, "-noprecise")) precise = 0;
     else if (!strcmp(a, "-stop")) stop_on_fail = 1;
     else if (!strncmp(a, "-json=", 6)) json = a + 6;
     else if (!strncmp(a, "-out=", 5)) outdir = a + 5;
@@ -441,6 +444,8 @@ int main(int argc, char** argv) {
   SH = mmap(0, sizeof(shared_t), PROT_READ | PROT_WRITE, MAP_SHARED | MAP_ANONYMOUS, -1, 0);
   slots = mmap(0, sizeof(wslot_t) * (size_t)W, PROT_READ | PROT_WRITE, MAP_SHARED | MAP_ANONYMOUS | MAP_NORESERVE, -1, 0);
   SH->envall = envall;
+  SH->atomicfilter = atomicfilter;
+  SH->precise = precise;
   if (replay) return do_replay(replay, verbose);
 
   start_workers();
